@@ -23,8 +23,8 @@ RULE = ("every boolean mask (2^(H*W), all-masked excluded at class level) of eve
 EXHAUSTIVE = {
     "quick": "util level: all masks of all shapes with H*W <= 10; class level: all masks with >=1 unmasked pixel, H*W <= 8, "
              "4 (input form, store_native) modes rotating over Array2D/Grid2D/VectorYX2D; 1-D: all masks of length <= 8; "
-             "histories: one object history and one mask history per mask with >=1 unmasked pixel and H*W <= 6, one of the two "
-             "(alternating) for H*W in {7, 8}; 1-D: one object history per mask of length <= 8",
+             "histories: one object history and one mask history per mask with >=1 unmasked pixel and H*W <= 6, for H*W in {7, 8} one "
+             "third of the masks gets an object history and one third a mask history; 1-D: one object history per mask of length <= 8",
     "thorough": "util level: H*W <= 14; class level: H*W <= 12; 1-D: length <= 12; histories: two per mask, H*W <= 10 (1-D: length <= 10)",
 }
 TRUSTED = ["hand-written Gallina model coq/Model/C01.v of array_2d_util / grid_2d_util / array_1d_util / mask_2d_util / mask_1d_util "
@@ -147,8 +147,9 @@ def gen_inputs(tier, rng):
             yield {"op": "array1d" if i % 3 else "grid1d", "r": list(bits), "ni": bool(i & 1), "sn": bool(i & 2), "e": SCALES[(i >> 2) % 4],
                    "mt": (i // 3) % 4, "vt": (i // 5) % 4, "nf": (i // 7) % 3 == 0}
             yield {"op": "array1d", "r": list(bits), "ni": not bool(i & 1), "sn": bool(i & 4)}
-    # ---- histories (phase 2): quick = every mask with H*W <= 6 gets an object history AND a mask history, the masks with
-    #      H*W in {7, 8} get one of the two (alternating); thorough = two of each for every mask with H*W <= 10
+    # ---- histories (phase 2): quick = every mask with H*W <= 6 gets an object history AND a mask history, of the masks with
+    #      H*W in {7, 8} one third gets an object history and one third a mask history; thorough = two of each for every
+    #      mask with H*W <= 10
     hk = ["array", "grid", "array", "vector"]
     for (h, w) in shapes_upto(nh):
         for m in all_masks(h, w):
@@ -156,11 +157,11 @@ def gen_inputs(tier, rng):
             for _ in range(2 if big else 1):
                 i += 1
                 both = big or h * w <= 6
-                if both or i % 2 == 0:
+                if both or i % 3 == 0:
                     cls = rng.choice(hk); sn = rng.random() < 0.6
                     yield {"op": "hist", "cls": cls, "m": m, "ni": rng.random() < 0.5, "sn": sn, "k": rng.randrange(4), "e": rng.choice(SCALES),
                            "mt": rng.choice(FORMS), "vt": rng.choice(FORMS), "ops": gen_ops(rng, m, sn, cls != "array")}
-                if both or i % 2 == 1:
+                if both or i % 3 == 1:
                     yield {"op": "maskhist", "m": m, "ops": gen_mops(rng, m)}
     for n in range(1, nh + 1):
         for bits in itertools.product([False, True], repeat=n):
@@ -170,7 +171,7 @@ def gen_inputs(tier, rng):
             yield {"op": "hist", "cls": c1, "m": [list(bits)], "ni": rng.random() < 0.5, "sn": sn,
                    "k": rng.randrange(4), "e": rng.choice(SCALES), "mt": rng.choice(FORMS), "vt": rng.choice(FORMS),
                    "ops": gen_ops(rng, [list(bits)], sn, False)}
-    for _ in range(1500 if big else 150):
+    for _ in range(1500 if big else 120):
         h, w = rng.randint(3, 12), rng.randint(3, 12)
         p = rng.choice([0.1, 0.3, 0.5, 0.8])
         m = [[rng.random() < p for _ in range(w)] for _ in range(h)]
